@@ -7,6 +7,7 @@ import (
 	"time"
 
 	"github.com/kercylan98/vivid"
+	"github.com/kercylan98/vivid/internal/verifhook"
 )
 
 var (
@@ -80,9 +81,11 @@ func (f *Future[T]) PipeTo(forwarders vivid.ActorRefs) error {
 	if len(forwarders) == 0 {
 		return nil
 	}
+	verifhook.Yield("fut.pipe.lock", f)
 	f.mu.Lock()
 	if f.closed.Load() {
 		f.mu.Unlock()
+		verifhook.Yield("fut.pipe.tell", f)
 		f.tellForwarders(forwarders, f.message, f.err)
 		return nil
 	}
@@ -106,9 +109,11 @@ func (f *Future[T]) tellForwarders(refs vivid.ActorRefs, msg T, err error) {
 }
 
 func (f *Future[T]) close(v any) {
+	verifhook.Yield("fut.close.cas", f)
 	if !f.closed.CompareAndSwap(false, true) {
 		return
 	}
+	verifhook.Yield("fut.close.write", f)
 	switch val := v.(type) {
 	case error:
 		f.err = val
@@ -118,27 +123,33 @@ func (f *Future[T]) close(v any) {
 	default:
 		f.err = fmt.Errorf("%w, expected %T, got %T", vivid.ErrorFutureMessageTypeMismatch, f.message, val)
 	}
+	verifhook.Yield("fut.close.done", f)
 	close(f.done)
 	if f.timer != nil {
 		f.timer.Stop()
 	}
+	verifhook.Yield("fut.close.closer", f)
 	if f.closer != nil {
 		f.closer()
 	}
 
+	verifhook.Yield("fut.close.take", f)
 	f.mu.Lock()
 	toSend := f.forwarders
 	f.forwarders = nil
 	f.mu.Unlock()
+	verifhook.Yield("fut.close.tell", f)
 	f.tellForwarders(toSend, f.message, f.err)
 }
 
 func (f *Future[T]) Result() (T, error) {
+	verifhook.Yield("fut.result.wait", f)
 	<-f.done
 	return f.message, f.err
 }
 
 func (f *Future[T]) Wait() error {
+	verifhook.Yield("fut.wait.wait", f)
 	<-f.done
 	return f.err
 }
